@@ -213,6 +213,14 @@ def rule_init(ctx, rep, only=None, scope=None):
                         fp = _field_path_of(d, t, data_name)
                         if fp is not None:
                             writes.setdefault(fp, []).append((bi, "copy", t2))
+                    elif c == "<core::mem::maybe_uninit::MaybeUninit<T>>::write":
+                        # `for slot in (*p).data.slice.iter_mut() { slot.write(v) }`: the destination is the slice walked
+                        from .. import fillloop as _fl
+
+                        d = _fl.slot_iter_place(F, B, t2)
+                        fp = _field_path_of(nobb(d), t, data_name) if d is not None else None
+                        if fp is not None and _in_cycle(B, bi):
+                            writes.setdefault(fp, []).append((bi, "slot-write", t2, d))
                     elif c in F.bodies and t2["args"]:
                         # a private helper that performs the write (`unsafe fn write_header(inner, header)`): its destination,
                         # expressed in the caller's terms, on every returning path of the helper
